@@ -83,7 +83,10 @@ Inductive action :=
 | EndProgram                        (* END *)
 | Idle                              (* end of the direct line / Break: set_pointer(False) *)
 | Start                             (* GOTO n / CONT: set_pointer(True) *)
-| RunClear.                         (* RUN [n]: clear everything and start *)
+| RunClear                          (* RUN [n], CHAIN: clear everything and start *)
+| Clear                             (* CLEAR: Interpreter.clear - error trapping, events, GOSUB stack; keeps running *)
+| New                               (* NEW (and storing a program line): everything cleared, not running *)
+| Renum.                            (* RENUM: _clear_stacks (stops the program); trap lines are remapped *)
 
 (* is check_input(e) called and does the trigger stick? *)
 Definition accept (st : state) (e : event) : bool := listening st && enabled (ev st e).
@@ -169,6 +172,9 @@ Definition step (st : state) (a : action) : state * list event :=
   | Idle => (set_pointer st false, [])
   | Start => (set_pointer st true, [])
   | RunClear => (mkS (reset_events st) false true true false false None [], [])
+  | Clear => (mkS (reset_events st) false (run_mode st) (listening st) false false None [], [])
+  | New => (mkS (reset_events st) false false false false false None [], [])
+  | Renum => (set_pointer (with_stack st []) false, [])
   end.
 
 Definition next (st : state) (a : action) : state := fst (step st a).
@@ -200,36 +206,83 @@ Fixpoint trace (st : state) (s : list action) : list (list event) :=
   | a :: r => entries st a :: trace (next st a) r
   end.
 
-Definition is_reset (a : action) : bool := match a with RunClear => true | _ => false end.
+(* the actions that create new handler objects (BasicEvents.reset) *)
+Definition is_reset (a : action) : bool :=
+  match a with RunClear | Clear | New => true | _ => false end.
 Definition no_reset (s : list action) : Prop := forall a, In a s -> is_reset a = false.
 
 (* ------------------------------------------------------------------------------------------------ *)
-(* where TIMER occurrences come from (basicevents.py:TimerHandler).  The handler keeps `start` and
-   `period`; check_input - called only while the handler is installed, i.e. while TIMER is ON or STOPped and
-   a statement loop polls - triggers when now >= start + period and then sets start := now.
-   `due` abstracts "now >= start + period" for a defined period; a fresh handler (after RUN) has
-   period 0 and start 0 and is therefore always due until ON TIMER(n) GOSUB sets the period.
-   `Elapse` = the period runs out; `Poll` = the pass of EventQueues._check_input over the installed
-   handlers at the end of every check_events (between `Install` and `Boundary`). *)
-Record tstate := mkT { core : state; due : bool; period_set : bool }.
+(* where the occurrences of the sampled sources come from.
+   TIMER (basicevents.py:TimerHandler) keeps `start` and `period`; check_input - called only while the
+   handler is installed, i.e. while TIMER is ON or STOPped and a statement loop polls - triggers when an
+   interval is defined and now >= start + period, and then sets start := now.  ON TIMER(n) GOSUB and
+   TIMER ON coming from OFF (restart) set start := now.  `due` abstracts "now >= start + period";
+   `Elapse` = the period runs out.
+   PLAY (PlayHandler, single-voice): check_input triggers when last >= trig and tones_waiting < trig, then
+   last := tones_waiting; PLAY ON coming from OFF sets last := tones_waiting.  `pq` is the number of tones
+   waiting (environment, `PlayQ n`), `ptrig` the n of ON PLAY(n) GOSUB (`PlayTrig n`, emitted with the
+   OnGosub), `plast` the handler's `last`.
+   KEY 15..20 are user defined: a key press (`KeyPress e`) is an occurrence only if `KEY n, CHR$(m)+CHR$(s)`
+   (`DefKey e`) has been executed since the handler objects were created.
+   `Poll` = the pass of EventQueues._check_input over the installed handlers at the end of every
+   check_events (between `Install` and `Boundary`). *)
+Record tstate := mkT {
+  core : state; due : bool; period_set : bool;
+  pq : Z; plast : Z; ptrig : Z;
+  kdef : list event }.
 
-Inductive taction := Core (a : action) | Elapse | Poll.
+Inductive taction :=
+| Core (a : action) | Elapse | Poll
+| PlayQ (n : Z) | PlayTrig (n : Z)
+| KeyPress (e : event) | DefKey (e : event).
 
-Definition tinit : tstate := mkT init false false.
+Definition tinit : tstate := mkT init false false 0%Z 0%Z 1%Z [].
 
-Definition poll_hits (x : tstate) : bool := accept (core x) Timer && (negb (period_set x) || due x).
+Definition user_key (e : event) : bool := match e with Key n => Nat.leb 15 n | _ => false end.
+Definition memb (e : event) (l : list event) : bool := existsb (event_eqb e) l.
+
+Definition poll_hits (x : tstate) : bool := accept (core x) Timer && (period_set x && due x).
+Definition play_polled (x : tstate) : bool := accept (core x) Play.
+Definition play_hits (x : tstate) : bool :=
+  play_polled x && (Z.leb (ptrig x) (plast x) && Z.ltb (pq x) (ptrig x)).
+Definition key_hits (x : tstate) (e : event) : bool := negb (user_key e) || memb e (kdef x).
+
+(* what a core action does to the sources *)
+Definition retime (x : tstate) (c : action) (st' : state) : tstate :=
+  if is_reset c then mkT st' false false (pq x) 0%Z 1%Z []            (* new handler objects *)
+  else match c with
+       | OnGosub Timer _ => mkT st' false true (pq x) (plast x) (ptrig x) (kdef x)   (* set_trigger *)
+       (* ON from OFF calls handler.restart(): TIMER start := now, PLAY last := notes waiting now *)
+       | On Timer => if enabled (ev (core x) Timer) then mkT st' (due x) (period_set x) (pq x) (plast x) (ptrig x) (kdef x)
+                     else mkT st' false (period_set x) (pq x) (plast x) (ptrig x) (kdef x)
+       | On Play => if enabled (ev (core x) Play) then mkT st' (due x) (period_set x) (pq x) (plast x) (ptrig x) (kdef x)
+                    else mkT st' (due x) (period_set x) (pq x) (pq x) (ptrig x) (kdef x)
+       | _ => mkT st' (due x) (period_set x) (pq x) (plast x) (ptrig x) (kdef x)
+       end.
+
+Definition with_core (x : tstate) (st' : state) : tstate :=
+  mkT st' (due x) (period_set x) (pq x) (plast x) (ptrig x) (kdef x).
+
+Definition poll_timer (x : tstate) : tstate :=
+  if poll_hits x then
+    mkT (next (core x) (Occur Timer)) false (period_set x) (pq x) (plast x) (ptrig x) (kdef x)
+  else x.
+
+Definition poll_play (x : tstate) : tstate :=
+  if play_polled x then
+    mkT (if play_hits x then next (core x) (Occur Play) else core x)
+        (due x) (period_set x) (pq x) (pq x) (ptrig x) (kdef x)
+  else x.
 
 Definition tstep (x : tstate) (a : taction) : tstate * list event :=
   match a with
-  | Core c =>
-      let r := step (core x) c in
-      (match c with
-       | OnGosub Timer _ => mkT (fst r) false true      (* set_trigger: start := now, period := n *)
-       | RunClear => mkT (fst r) false false            (* a new TimerHandler *)
-       | _ => mkT (fst r) (due x) (period_set x)
-       end, snd r)
-  | Elapse => (mkT (core x) true (period_set x), [])
-  | Poll => if poll_hits x then (mkT (next (core x) (Occur Timer)) false (period_set x), []) else (x, [])
+  | Core c => let r := step (core x) c in (retime x c (fst r), snd r)
+  | Elapse => (mkT (core x) true (period_set x) (pq x) (plast x) (ptrig x) (kdef x), [])
+  | Poll => (poll_play (poll_timer x), [])
+  | PlayQ n => (mkT (core x) (due x) (period_set x) n (plast x) (ptrig x) (kdef x), [])
+  | PlayTrig n => (mkT (core x) (due x) (period_set x) (pq x) (plast x) n (kdef x), [])
+  | KeyPress e => (if key_hits x e then with_core x (next (core x) (Occur e)) else x, [])
+  | DefKey e => (mkT (core x) (due x) (period_set x) (pq x) (plast x) (ptrig x) (e :: kdef x), [])
   end.
 
 Definition tnext (x : tstate) (a : taction) : tstate := fst (tstep x a).
@@ -241,16 +294,20 @@ Fixpoint ttrace (x : tstate) (s : list taction) : list (list event) :=
   | a :: r => snd (tstep x a) :: ttrace (tnext x a) r
   end.
 
-(* the schedule of core actions that a timed schedule amounts to: a Poll that hits is `Occur Timer` *)
+(* the core actions that one timed action amounts to *)
+Definition expand1 (x : tstate) (a : taction) : list action :=
+  match a with
+  | Core c => [c]
+  | Poll => (if poll_hits x then [Occur Timer] else []) ++
+            (if play_hits (poll_timer x) then [Occur Play] else [])
+  | KeyPress e => if key_hits x e then [Occur e] else []
+  | _ => []
+  end.
+
 Fixpoint texpand (x : tstate) (s : list taction) : list action :=
   match s with
   | [] => []
-  | a :: r =>
-      match a with
-      | Core c => [c]
-      | Elapse => []
-      | Poll => if poll_hits x then [Occur Timer] else []
-      end ++ texpand (tnext x a) r
+  | a :: r => expand1 x a ++ texpand (tnext x a) r
   end.
 
 (* ------------------------------------------------------------------------------------------------ *)
@@ -295,7 +352,11 @@ Definition items_of (z : Z) : list item :=
   | 16 => c Resume | 17 => c ResumeTo | 18 => c EndProgram | 19 => c Idle | 20 => c Start
   | 21 => c RunClear
   | 22 => [Do (Core Install); Do Poll; Do (Core (Boundary (unpack_order 12 x)))]  (* a whole parse-top *)
-  | _ => [Do Elapse]
+  | 23 => [Do Elapse]
+  | 24 => c Clear | 25 => c New | 26 => c Renum
+  | 27 => [Do (PlayQ x)] | 28 => [Do (PlayTrig x)]
+  | 29 => [Do (KeyPress e)] | 30 => [Do (DefKey e)]
+  | _ => []
   end.
 
 Definition decode (l : list Z) : list item := flat_map items_of l.
@@ -311,7 +372,8 @@ Definition enc_frame (f : bool * option event) : Z :=
   2 * match snd f with Some e => event_code e | None => 0 end + b2z (fst f).
 
 (* the events the harness observes *)
-Definition tracked : list event := [Key 1; Key 2; Timer; Pen; Strig 0; Com 1].
+Definition tracked : list event :=
+  [Key 1; Key 2; Key 5; Key 11; Key 15; Key 16; Timer; Play; Pen; Strig 0; Strig 1; Strig 3; Com 1; Com 2].
 
 Definition pack (base : Z) (l : list Z) : Z := fold_right (fun d acc => d + base * acc) 0 l.
 
@@ -323,11 +385,11 @@ Definition enc_state (st : state) : list Z :=
    + 64 * Z.of_nat (length (gosub_stack st));
    pack 64 (map enc_frame (gosub_stack st))].
 
-(* run a decoded schedule; `Obs` emits the state, every action emits 1000 + code of each entered event *)
+(* run a decoded schedule; `Obs` emits the state (and PlayHandler.last/trig), every action emits 1000 + code of each entered event *)
 Fixpoint replay (x : tstate) (l : list item) : list Z :=
   match l with
   | [] => []
-  | Obs :: r => enc_state (core x) ++ replay x r
+  | Obs :: r => enc_state (core x) ++ [plast x + 64 * ptrig x] ++ replay x r
   | Do a :: r => map (fun e => 1000 + event_code e) (snd (tstep x a)) ++ replay (tnext x a) r
   end.
 
